@@ -54,7 +54,7 @@ func TestReaders(t *testing.T) {
 			}
 			return c
 		},
-		EnumDesc: "2 seed inputs per reader-based entry point {Tx.ReadFrom, Txs.ReadFrom, Input.ReadFrom, Input.ReadFromExtended, Output.ReadFrom} x every varint site x claims {253, 2^16, 2^24, 2^31, 2^32-1, 2^32, 2^40, 2^63, 2^64-1, 2^20, 2^28, 2^30} x {0, 1, all} bytes kept x 15 kinds of reader",
+		EnumDesc: "2 seed inputs per reader-based entry point {Tx.ReadFrom, Txs.ReadFrom, Input.ReadFrom, Input.ReadFromExtended, Output.ReadFrom} x every varint site x claims {253, 2^16, 2^24, 2^31, 2^32-1, 2^32, 2^40, 2^63, 2^64-1, 2^20, 2^28, 2^30} x {0, 1, all} bytes kept x 21 kinds of reader (15 dynamic types + 6 scripted behaviours, round 9)",
 		Enum: func(tier string, yield func(Wrap)) {
 			for _, entry := range readerEntries {
 				for si, sd := range seeds()[:2] {
